@@ -88,31 +88,21 @@ func c11A6(r *core.R) {
 		r.Anchor("osm.Updates.SortByIndex")
 		return
 	}
-	ad := c11SortAdapter(pk, sfi)
-	if ad == nil {
-		r.Anchor("sort.Sort(adapter) in osm.Updates.SortByIndex")
+	cmp, anchor := c11FindComparator(pk, sfi)
+	if cmp == nil {
+		r.Anchor(anchor + " in osm.Updates.SortByIndex")
 		return
 	}
-	lf := findFunc(pk, ad.Obj().Name()+".Less")
-	if lf == nil || lf.Decl.Body == nil {
-		r.Anchor(ad.Obj().Name() + ".Less")
-		return
-	}
-	recvO := c11RecvObj(pk.TypesInfo, lf.Decl)
-	if sig := lf.Obj.Type(); recvO == nil || sig == nil {
-		r.Unknown(c, lf.Decl.Pos(), "Less without named receiver")
-		return
-	}
-	bad, unk := c11LessTable(pk, lf, recvO, []string{"Index", "Timestamp", "Version"})
+	bad, unk := c11CmpTable(cmp, []string{"Index", "Timestamp", "Version"})
 	switch {
 	case len(bad) > 0:
 		if len(bad) > 4 {
 			bad = append(bad[:4], "…")
 		}
-		r.Bad(c, lf.Decl.Pos(), "%s.Less is not the strict lexicographic order over (Index, Timestamp, Version): %s. sort.Sort is not stable, so updates of one child location that compare equal can end up newest-first and ApplyUpdatesUpTo then leaves the older child version on the parent", ad.Obj().Name(), strings.Join(bad, "; "))
+		r.Bad(c, cmp.pos, "%s is not the strict lexicographic order over (Index, Timestamp, Version): %s. sort.Sort is not stable, so updates of one child location that compare equal can end up newest-first and ApplyUpdatesUpTo then leaves the older child version on the parent", cmp.desc, strings.Join(bad, "; "))
 	case len(unk) > 0:
-		r.Unknown(c, lf.Decl.Pos(), "%s.Less: %s", ad.Obj().Name(), strings.Join(c11Uniq(unk)[:1], "; "))
+		r.Unknown(c, cmp.pos, "%s: %s", cmp.desc, strings.Join(c11Uniq(unk)[:1], "; "))
 	default:
-		r.OK(c, lf.Decl.Pos(), "%s.Less evaluated on all 27 relations of (Index, Timestamp, Version): true exactly for the strict lexicographic order (equal index and timestamp are ordered by ascending Version)", ad.Obj().Name())
+		r.OK(c, cmp.pos, "%s evaluated on all 27 relations of (Index, Timestamp, Version): true exactly for the strict lexicographic order (equal index and timestamp are ordered by ascending Version)", cmp.desc)
 	}
 }
